@@ -270,4 +270,76 @@ def levelOverhangCty (cev : CtyEval) (ov : PropEval) (fuel : Nat) (cv : CVotes) 
   let h ← levelLoop (fun h => ov pv h [] []) lowest fuel (n - drop) prop
   pure (h + drop - n)
 
+/-! ### ByParty as the distributing evaluator, and the depth-2 two-stage wrapper (DE example) -/
+
+/-- nested result: constituency key -> party key -> seats -/
+abbrev NDist := List (Key × Dist)
+
+def ndGet (r : NDist) (k : Key) : Dist :=
+  match r.find? (fun p => p.1 = k) with
+  | some p => p.2
+  | none => []
+
+def ndSet : NDist → Key → Dist → NDist
+  | [], k, v => [(k, v)]
+  | p :: ps, k, v => if p.1 = k then (k, v) :: ps else p :: ndSet ps k v
+
+/-- votes of one party in a constituency: `sum(SubsettedVotes().convert(cvotes, [party]).values())` (core.py L1171-1175);
+    a `Tie` "party" matches no vote -/
+def partyVotesIn (vs : Votes) : Key → Rat
+  | .cand c => getD vs c 0
+  | .tie _ => 0
+
+/-- `{constituency: cg[party] for constituency, cg in prev_gains.items() if party in cg}` (core.py L1177-1180) -/
+def partyPrev (prev : CSeats) : Key → Seats
+  | .cand c => prev.filterMap (fun d =>
+      match d.2.find? (fun q => q.1 = c) with
+      | some q => some (d.1, q.2)
+      | none => none)
+  | .tie _ => []
+
+/-- `ByParty(overall_evaluator=ov, allocator=alloc).evaluate(votes, n_seats, prev_gains)` (core.py L1140-1196) on simple
+    votes, `max_seats = {}`: the overall evaluator sees neither previous gains nor caps. -/
+def byParty (ov alloc : PropEval) (cv : CVotes) (n : Nat) (prev : CSeats) : Except Err NDist := do
+  let overall ← ov (voteTotals cv) n [] []
+  let step (acc : Except Err NDist) (e : Key × Nat) : Except Err NDist := do
+    let results ← acc
+    let pv : Votes := cv.map (fun d => (d.1, partyVotesIn d.2 e.1))
+    let allocated ← alloc pv e.2 (partyPrev prev e.1) []
+    pure (allocated.foldl (fun res a => ndSet res a.1 (setK (ndGet res a.1) e.1 a.2)) results)
+  let results ← overall.foldl step (.ok [])
+  pure (cv.foldl (fun res d => if res.any (fun p => p.1 = Key.cand d.1) then res else res ++ [(Key.cand d.1, [])]) results)
+
+/-- `AdjustedSeatCount(LevelOverhangByConstituency(cev, ov), ByParty(ov', alloc)).evaluate(votes, n, prev_gains)` -/
+def adjustedByParty (cev : CtyEval) (ov : PropEval) (fuel : Nat) (ov' alloc : PropEval)
+    (cv : CVotes) (n : Nat) (prev : CSeats) : Except Err NDist := do
+  let adj ← levelOverhangCty cev ov fuel cv n prev
+  byParty ov' alloc cv (n + adj) prev
+
+def cseatsToNDist (s : CSeats) : NDist := s.map (fun d => (Key.cand d.1, seatsToDist d.2))
+
+/-- `_add_stage_results(elected, stage_res, depth=2)` (core.py L337-346), up to the order of the constituencies -/
+def addNDist (e r : NDist) : NDist :=
+  r.foldl (fun acc d => ndSet acc d.1 (addDist (ndGet acc d.1) d.2)) e
+
+def ndToCSeats : NDist → Option CSeats
+  | [] => some []
+  | (Key.cand c, d) :: ps =>
+    match distToSeats d, ndToCSeats ps with
+    | some s, some r => some ((c, s) :: r)
+    | _, _ => none
+  | (Key.tie _, _) :: _ => none
+
+/-- `MultistageDistributor([first stage yielding the direct seats by constituency,
+    AdjustedSeatCount(LevelOverhangByConstituency, ByParty)], depth=2).evaluate(votes, n)` -/
+def multistageDE (direct : CSeats) (cev : CtyEval) (ov : PropEval) (fuel : Nat) (ov' alloc : PropEval)
+    (cv : CVotes) (n : Nat) : Except Err NDist :=
+  let elected := addNDist [] (cseatsToNDist direct)
+  match ndToCSeats elected with
+  | none => .error unmodelled
+  | some prev =>
+    match adjustedByParty cev ov fuel ov' alloc cv n prev with
+    | .ok res => .ok (addNDist elected res)
+    | .error e => .error e
+
 end VL.OH
